@@ -57,6 +57,17 @@ def _value_alts(t):
     return out
 
 
+def ifexp_to_alts(t):
+    """conditional expressions at the top of a value as alternatives"""
+    from ..terms import phi
+
+    if t[0] == "ifexp":
+        return phi([ifexp_to_alts(t[2]), ifexp_to_alts(t[3])])
+    if t[0] == "phi":
+        return phi([ifexp_to_alts(a) for a in t[1]])
+    return t
+
+
 @rule(P)
 def c03_1(ctx: Ctx) -> RuleResult:
     res = RuleResult("C03.1", "TERM", "row failure = any NaN among the row's objectives OR constraints; failed rows are NaN in every column of both arrays")
@@ -81,6 +92,9 @@ def c03_1(ctx: Ctx) -> RuleResult:
         con_none = cond_value(conds, ("cmp", "is", pcon, NONE_))
         for name, elem in (("objectives", leaf[1][0]), ("constraints", leaf[1][1])):
             st_ = state[name]
+            if not any(a[0] == "update" for a in alts(elem)):
+                # the masked copy may be made by a private helper (`_with_failed_rows(results, failures)`)
+                elem = ifexp_to_alts(X.force_inline(elem, f, effects=True))
             for u in [a for a in alts(elem) if a[0] == "update"]:
                 st_[0] = True
                 base, idx, val = u[1], u[3], u[4]
